@@ -223,7 +223,12 @@ def check_texts(case):
         bym = {py: lit for _, py, _, lit in lits}
         cpp_items = []
         for i, t in enumerate(tx):
-            want = XMLDocParser().extract_docstring(xml, 'gt::Foo', 'm%d' % i, ['a'])
+            try:
+                want = XMLDocParser().extract_docstring(xml, 'gt::Foo', 'm%d' % i, ['a'])
+            except Exception as e:
+                viol.append({'sig': 'C17|texts|extract-raises|%s' % type(e).__name__,
+                             'msg': 'a fresh XMLDocParser raised %s: %s (state shared between parser objects?)' % (type(e).__name__, e)})
+                continue
             lit = bym.get('m%d' % i)
             cls = '+'.join(sorted({charclass(c) for c in t})) or 'empty'
             if lit is None or isinstance(lit, tuple):
@@ -309,6 +314,7 @@ def check_matching(case):
             ('same', [('double', 'v', None)], 'full'),
             ('same', [('string', 'v', None)], 'full'),
             ('opt', [('int', 'a', None), ('int', 'b', '2'), ('int', 'c', '3')], 'full'),   # optional parameters
+            ('optreq', [('int', 'a', None), ('double', 'tol', '1e-9'), ('string', 'name', '"x"')], 'full-required-only'),
             ('briefonly', [('int', 'a', None)], 'brief'),
             ('nodoc', [('int', 'a', None)], 'none'),
             ('notinxml', [('int', 'a', None)], 'absent'),
@@ -318,15 +324,20 @@ def check_matching(case):
         expect = []   # (py name, arg names, marker or None)
         for i, (name, params, kind) in enumerate(methods):
             mark = 'K%dK' % i
+            xml_params = params
+            if kind == 'full-required-only':
+                # the interface declares only the required parameters of a C++ member that has optional ones
+                params = [p for p in params if p[2] is None]
+                kind = 'full'
             args = [arg(T(t), n, dv) for t, n, dv in params]
             if name == 'stat':
                 members.append(D.static(single(I), name, args))
             else:
                 members.append(D.method(single(I), name, args))
             if kind != 'absent':
-                m = {'name': name, 'params': params}
+                m = {'name': name, 'params': xml_params}
                 if kind == 'full':
-                    m.update(doc(mark, pdocs={n: 'PD-%s-%s' % (mark, n) for _, n, _ in params}))
+                    m.update(doc(mark, pdocs={n: 'PD-%s-%s' % (mark, n) for _, n, _ in xml_params}))
                 elif kind == 'brief':
                     m.update({'brief': 'BRIEF-%s' % mark})
                 xmlm.append(m)
@@ -375,12 +386,30 @@ def check_matching(case):
                     viol.append({'sig': 'C17|matching|docstring-for-undocumented-class|%s' % cpp, 'msg': '%s.%s has "%s"' % (cpp, py, lit)})
             if strip_literals(out) != gen.pybind(text):
                 viol.append({'sig': 'C17|matching|output-differs-beyond-literals|%s' % vname, 'msg': 'output changed beyond the literals'})
+        # (e') a second, brand-new wrapper in the same process
+        try:
+            again = gen.pybind(text, xml_source=xml)
+            ref_first = gen.pybind(text, wrapper=None, xml_source=xml) if False else None
+            lits2 = [(py, lit) for cpp, py, names, lit in def_literals(again) if cpp == 'gt::Foo']
+            for (py, lit), (_, _, mark) in zip(lits2, expect):
+                marks = set(re.findall(r'K\d+K', lit if isinstance(lit, str) else ''))
+                if mark is not None and marks != {mark}:
+                    viol.append({'sig': 'C17|matching|second-wrapper-in-process-differs|%s' % py,
+                                 'msg': 'a new wrapper created later in the same process gives %s the docstring "%s" (expected %s)' % (py, lit, mark)})
+        except Exception as e:
+            viol.append({'sig': 'C17|matching|second-wrapper-in-process-raises|%s' % type(e).__name__,
+                         'msg': 'a new wrapper created later in the same process raised %s: %s' % (type(e).__name__, e)})
         # (e) one wrapper used twice
         from gtwrap.pybind_wrapper import PybindWrapper
         w = PybindWrapper(module_name='mod', top_module_namespaces=[''], ignore_classes=[''], module_template=gen.PY_TEMPLATE, xml_source=xml)
-        first = gen.pybind(text, wrapper=w)
         try:
-            second = gen.pybind(text, wrapper=w)
+            first = gen.pybind(text, wrapper=w)
+        except Exception as e:
+            first = None
+            viol.append({'sig': 'C17|matching|later-wrapper-in-process-raises|%s' % type(e).__name__,
+                         'msg': 'a wrapper created after other wrappers in the same process raised %s: %s' % (type(e).__name__, e)})
+        try:
+            second = gen.pybind(text, wrapper=w) if first is not None else None
             if first != second:
                 viol.append({'sig': 'C17|matching|second-wrap-differs', 'msg': 'wrapping the same text twice with one wrapper object gives different docstrings: %r vs %r'
                              % ([l for _, p, _, l in def_literals(first) if p == 'same'], [l for _, p, _, l in def_literals(second) if p == 'same'])})
